@@ -248,6 +248,45 @@ def run (f : List String) : Option String :=
           "a=" ++ showDec a ++ " b=" ++ showDec (dec o (b.take consumed ++ s))
         else "a=" ++ showDec a
       | _ => "a=" ++ showDec a)
+  | ["encbig", _, m] => do
+    -- what is appended does not depend on what the writer holds (C09.encodeInto_append): the value alone
+    let m ← parseMsg m
+    some (match runMsgL [] m with
+      | .error _ => "panic"
+      | .ok (w, _) => "ok tail=" ++ hex w ++ " clean=1")
+  | ["encabig", _, a] => do
+    let a ← parseAvp a
+    some (match writeAvpL [] a with
+      | .error _ => "panic"
+      | .ok (w, _) => "ok tail=" ++ hex w ++ " clean=1")
+  | ["sfxbig", o, b, size] => do
+    -- a declared length in front of `size - consumed` more octets: by C08.suffix_irrelevant the answer is the one
+    -- for the image alone, with everything behind the declared end left over (the octets themselves are never built)
+    let o ← parseOpts o
+    let b ← unhex b
+    let size ← size.toNat?
+    let a := dec o b
+    some (match a with
+      | .ok m r =>
+        if hasDeclaredLen m then
+          let consumed := b.length - r.length
+          "a=" ++ showDec a ++ " b=ok " ++ renderMsg m ++ " rem=" ++ toString (size - consumed)
+        else "a=" ++ showDec a
+      | _ => "a=" ++ showDec a)
+  | ["paybig", b, size] => do
+    -- a data message without Length field: the payload is all that follows the header
+    let b ← unhex b
+    let size ← size.toNat?
+    some (match dec { reserved := false, version := true, unused := false } b with
+      | .ok (.data d) _ =>
+        (match d.length with
+          | none =>
+            let hdr := b.length - d.data.length
+            "ok data p=" ++ (if d.prio then "1" else "0") ++ " len=- tid=" ++ toString d.tunnelId.toNat ++ " sid=" ++ toString d.sessionId.toNat ++
+              " payload=" ++ toString (size - hdr) ++ " rem=0"
+          | some _ => "n/a")
+      | _ => "n/a")
+  | ["rdbig", _, _] => some "n/a"
   | ["seqm", ms] => do
     let msgs ← (ms.splitOn "|").mapM parseMsg
     let all := msgs.foldl (fun (acc : Except Fault Bytes) m => match acc with
